@@ -65,6 +65,28 @@ package cargo
 //@ lemma c20-equal [C20]: forall c *constraint, v1, v2 *Version :: trigger(satisfiesConstraint(v1, c), satisfiesConstraint(v2, c)) && c != nil && c.version != nil && v1 != nil && v2 != nil && (c.operator == "=" || c.operator == "!=" || c.operator == "<" || c.operator == "<=" || c.operator == ">" || c.operator == ">=") && v1.Compare(v2) == 0 ==> satisfiesConstraint(v1, c) == satisfiesConstraint(v2, c)
 //@ lemma c20-convex [C20]: forall c *constraint, a, b, d *Version :: trigger(satisfiesConstraint(a, c), satisfiesConstraint(d, c), a.Compare(b), b.Compare(d)) && c != nil && c.version != nil && a != nil && b != nil && d != nil && (c.operator == "=" || c.operator == "!=" || c.operator == "<" || c.operator == "<=" || c.operator == ">" || c.operator == ">=") && c.operator != "!=" && a.Compare(b) <= 0 && b.Compare(d) <= 0 && satisfiesConstraint(a, c) && satisfiesConstraint(d, c) ==> satisfiesConstraint(b, c)
 
+// ---- range text to constraints (C02): an operator directly before a valid version; the list separator means AND
+
+//@ func parseConstraint
+//@   ensures xor: (result0 != nil) == (result1 == nil)
+//@   ensures bound: result1 == nil ==> result0.version != nil
+//@   ensures op>=: strings.HasPrefix(strings.TrimSpace(constraintStr), ">=") && !strings.HasPrefix(strings.TrimSpace(constraintStr), "^") && !strings.HasPrefix(strings.TrimSpace(constraintStr), "~") && result1 == nil ==> result0.operator == ">=" && result0.version == ecosystem.NewVersion(strings.TrimSpace(strings.TrimSpace(constraintStr)[2:])).0   [C02]
+//@   ensures accepts>=: strings.HasPrefix(strings.TrimSpace(constraintStr), ">=") && !strings.HasPrefix(strings.TrimSpace(constraintStr), "^") && !strings.HasPrefix(strings.TrimSpace(constraintStr), "~") && strings.TrimSpace(strings.TrimSpace(constraintStr)[2:]) != "" && ecosystem.NewVersion(strings.TrimSpace(strings.TrimSpace(constraintStr)[2:])).1 == nil ==> result1 == nil   [C02]
+//@   ensures op<=: strings.HasPrefix(strings.TrimSpace(constraintStr), "<=") && !strings.HasPrefix(strings.TrimSpace(constraintStr), "^") && !strings.HasPrefix(strings.TrimSpace(constraintStr), "~") && result1 == nil ==> result0.operator == "<=" && result0.version == ecosystem.NewVersion(strings.TrimSpace(strings.TrimSpace(constraintStr)[2:])).0   [C02]
+//@   ensures accepts<=: strings.HasPrefix(strings.TrimSpace(constraintStr), "<=") && !strings.HasPrefix(strings.TrimSpace(constraintStr), "^") && !strings.HasPrefix(strings.TrimSpace(constraintStr), "~") && strings.TrimSpace(strings.TrimSpace(constraintStr)[2:]) != "" && ecosystem.NewVersion(strings.TrimSpace(strings.TrimSpace(constraintStr)[2:])).1 == nil ==> result1 == nil   [C02]
+//@   ensures op!=: strings.HasPrefix(strings.TrimSpace(constraintStr), "!=") && !strings.HasPrefix(strings.TrimSpace(constraintStr), "^") && !strings.HasPrefix(strings.TrimSpace(constraintStr), "~") && result1 == nil ==> result0.operator == "!=" && result0.version == ecosystem.NewVersion(strings.TrimSpace(strings.TrimSpace(constraintStr)[2:])).0   [C02]
+//@   ensures accepts!=: strings.HasPrefix(strings.TrimSpace(constraintStr), "!=") && !strings.HasPrefix(strings.TrimSpace(constraintStr), "^") && !strings.HasPrefix(strings.TrimSpace(constraintStr), "~") && strings.TrimSpace(strings.TrimSpace(constraintStr)[2:]) != "" && ecosystem.NewVersion(strings.TrimSpace(strings.TrimSpace(constraintStr)[2:])).1 == nil ==> result1 == nil   [C02]
+//@   ensures op>: strings.HasPrefix(strings.TrimSpace(constraintStr), ">") && !strings.HasPrefix(strings.TrimSpace(constraintStr), ">=") && !strings.HasPrefix(strings.TrimSpace(constraintStr), "^") && !strings.HasPrefix(strings.TrimSpace(constraintStr), "~") && result1 == nil ==> result0.operator == ">" && result0.version == ecosystem.NewVersion(strings.TrimSpace(strings.TrimSpace(constraintStr)[1:])).0   [C02]
+//@   ensures accepts>: strings.HasPrefix(strings.TrimSpace(constraintStr), ">") && !strings.HasPrefix(strings.TrimSpace(constraintStr), ">=") && !strings.HasPrefix(strings.TrimSpace(constraintStr), "^") && !strings.HasPrefix(strings.TrimSpace(constraintStr), "~") && strings.TrimSpace(strings.TrimSpace(constraintStr)[1:]) != "" && ecosystem.NewVersion(strings.TrimSpace(strings.TrimSpace(constraintStr)[1:])).1 == nil ==> result1 == nil   [C02]
+//@   ensures op<: strings.HasPrefix(strings.TrimSpace(constraintStr), "<") && !strings.HasPrefix(strings.TrimSpace(constraintStr), "<=") && !strings.HasPrefix(strings.TrimSpace(constraintStr), "^") && !strings.HasPrefix(strings.TrimSpace(constraintStr), "~") && result1 == nil ==> result0.operator == "<" && result0.version == ecosystem.NewVersion(strings.TrimSpace(strings.TrimSpace(constraintStr)[1:])).0   [C02]
+//@   ensures accepts<: strings.HasPrefix(strings.TrimSpace(constraintStr), "<") && !strings.HasPrefix(strings.TrimSpace(constraintStr), "<=") && !strings.HasPrefix(strings.TrimSpace(constraintStr), "^") && !strings.HasPrefix(strings.TrimSpace(constraintStr), "~") && strings.TrimSpace(strings.TrimSpace(constraintStr)[1:]) != "" && ecosystem.NewVersion(strings.TrimSpace(strings.TrimSpace(constraintStr)[1:])).1 == nil ==> result1 == nil   [C02]
+//@   ensures op=: strings.HasPrefix(strings.TrimSpace(constraintStr), "=") && !strings.HasPrefix(strings.TrimSpace(constraintStr), "^") && !strings.HasPrefix(strings.TrimSpace(constraintStr), "~") && result1 == nil ==> result0.operator == "=" && result0.version == ecosystem.NewVersion(strings.TrimSpace(strings.TrimSpace(constraintStr)[1:])).0   [C02]
+//@   ensures accepts=: strings.HasPrefix(strings.TrimSpace(constraintStr), "=") && !strings.HasPrefix(strings.TrimSpace(constraintStr), "^") && !strings.HasPrefix(strings.TrimSpace(constraintStr), "~") && strings.TrimSpace(strings.TrimSpace(constraintStr)[1:]) != "" && ecosystem.NewVersion(strings.TrimSpace(strings.TrimSpace(constraintStr)[1:])).1 == nil ==> result1 == nil   [C02]
+
+//@ func parseConstraints
+//@   loop 1 invariant (forall j int :: 0 <= j && j <= rangeindex ==> strings.TrimSpace(parts[j]) != "") ==> len(constraints) == rangeindex + 1 && (forall j int :: 0 <= j && j <= rangeindex ==> constraints[j] == parseConstraint(strings.TrimSpace(parts[j]), ecosystem).0)
+//@   ensures and-list: (forall j int :: 0 <= j && j < len(strings.Split(rangeStr, ",")) ==> strings.TrimSpace(strings.Split(rangeStr, ",")[j]) != "") && result1 == nil ==> len(result0) == len(strings.Split(rangeStr, ",")) && (forall j int :: 0 <= j && j < len(result0) ==> result0[j] == parseConstraint(strings.TrimSpace(strings.Split(rangeStr, ",")[j]), ecosystem).0)   [C02]
+
 // ---- stored text (C18)
 
 //@ func (*Version).String
@@ -72,3 +94,7 @@ package cargo
 
 //@ func (*VersionRange).String
 //@   ensures text: result == arg0.original   [C18]
+
+//@ func convertWildcardToStandardConstraint
+//@   ensures xor: (result0 != nil) == (result1 == nil)
+//@   ensures bound: result1 == nil ==> result0.version != nil
